@@ -871,6 +871,8 @@ def case_eigs(ctx, P, rng, nprng):
     if status == "exhausted" and r <= 27:
         cands += [r, r, r + 1, r + 1, r + 3]
     ncv = max(2, rng.choice(cands))
+    if vkind == "near" and P.d <= 28 and rng.random() < 0.6:
+        ncv = min(30, P.d + rng.randint(0, 4))      # near-invariant start in a space the basis can exhaust
     kmax = max(1, min(ncv - 1, r if status != "ambiguous" else 1, 3))
     k = rng.choice((1, 1, 2, 3))
     k = min(k, kmax)
@@ -971,13 +973,23 @@ def case_eigs(ctx, P, rng, nprng):
                 ctx.count("eigs_scale_invariance_checked:near-invariant")
             unit = max(1.0, P.nrm)
             dv = float(np.max(np.abs(val - val1)))
-            if not hflag and np.isrealobj(P.M) and np.isrealobj(vec1):
-                # real non-symmetric map: Ritz values come in conjugate pairs, which tie in every `which` criterion
+            if not hflag and np.isrealobj(P.M):
+                # real non-symmetric map: eigenvalues / Ritz values come in conjugate pairs, which tie in every `which` criterion
                 dv = float(np.max(np.minimum(np.abs(val - val1), np.abs(val - np.conj(val1)))))
             lo = min(min(ress), min(ress1))
-            ok_v = ctx.margin("eigs:scale-invariance:values", dv, 1e-10 * unit + 1e-6 * lo)
+            complete = bool(obs["happy"]) or premise is not None
+            if complete:
+                ctx.count("eigs_scale_invariance_checked:complete")
+                if vkind == "near":
+                    ctx.count("eigs_scale_invariance_checked:near-invariant:complete")
+            # an incomplete Krylov space that went through a small sub-diagonal h carries round-off amplified by ||A|| / h:
+            # two runs that differ by the rounding of c*v0 legitimately differ by that much (a complete space does not care)
+            noise = 0.0 if complete else 100 * EPS * unit * P.nrm / max(min(obs["sub"]) if obs["sub"] else P.nrm, 1e-300)
+            # eigenvalues of non-normal maps can be ill conditioned (clusters, defective): values only to 1e-5, residuals decide
+            ok_v = ctx.margin("eigs:scale-invariance:values" + ("" if P.herm else ":non-hermitian"), dv,
+                              1e-10 * unit + 1e-6 * lo + noise + (0.0 if P.herm else 1e-5 * unit))
             dr = max(abs(a_ - b_) for a_, b_ in zip(ress, ress1))
-            ok_r = ctx.margin("eigs:scale-invariance:residuals", dr, 1e-10 * unit + 0.1 * lo)
+            ok_r = ctx.margin("eigs:scale-invariance:residuals", dr, 1e-10 * unit + 0.1 * lo + noise)
             if not (ok_v and ok_r):
                 ctx.violation("value:eigs:depends-on-norm-of-v0" + (":near-invariant-start" if vkind == "near" else ""),
                               f"eigs(f, c*v0) != eigs(f, v0) for c={c:g} (which={which}, k={k}, ncv={ncv}, hermitian={hflag}, start={vkind}): "
